@@ -208,7 +208,7 @@ pub(crate) fn c16_cache_store_during_reload() {
     let mut cache = Cache::new(&s);
     s.store(fresh_handle(1));
     // during the observing load: the check reads o1, then another writer stores o2 before the reload
-    unsafe { api::SCRIPT = api::Script { at_access: [0; 6], at_cas: [0; 2], after_cas: [0; 2], at_load: [0, 3, 0, 0] } };
+    api::set_script(api::Script { at_access: [0; 6], at_cas: [0; 2], after_cas: [0; 2], at_load: [0, 3, 0, 0] });
     api::wenv_install(&s, 1);
     let got = cache.load().0;
     api::hooks_off();
